@@ -22,6 +22,7 @@ TStep ==
   \/ /\ Cur.op = "setstate" /\ SetState(Cur.a)
   \/ /\ Cur.op = "setinput" /\ SetInput(Cur.a, Cur.g, Cur.k)
   \/ /\ Cur.op = "setall" /\ SetAll(Cur.a, Cur.k)
+  \/ /\ Cur.op = "setqacc" /\ SetQacc(Cur.a, Cur.k)
   \/ /\ Cur.op = "forward" /\ Forward(Cur.a, Cur.fa)
   \/ /\ Cur.op = "inverse" /\ Inverse(Cur.a, Cur.fa)
   \/ /\ Cur.op = "step" /\ Step(Cur.a, Cur.fa)
